@@ -680,6 +680,15 @@ func (c *Ctx) orderPreservingRemoval(rb *ssa.Function) {
 					}
 					if rs, isRs := st.Val.(*ssa.Slice); isRs && isSigs(rs.X) && rs.Low == nil && rs.High != nil {
 						h := affineOf(rs.High, 0)
+						// ... written with the number of elements the copy moved: copy(s[i:], s[i+1:])
+						// returns len(s)-i-1 (the shorter of the two), so s[:i+moved] is s[:len(s)-1]
+						for sym, cf := range h.T {
+							if cf == 1 && ir.StripConv(h.Sym[sym]) == ssa.Value(x) {
+								if r := h.add(symAffine(sym, x), -1).add(affineOf(dst.Low, 0), -1); r.isConst() && r.K == 0 {
+									ok, det = true, ""
+								}
+							}
+						}
 						if h.K == -1 && len(h.T) == 1 {
 							for sym, cf := range h.T {
 								if cf == 1 && strings.HasPrefix(sym, "len(") {
